@@ -774,4 +774,11 @@ def rule_close_surfaces(ctx):
     ctx.borrow(rule_file, {"C12.FILE": "C01.CLOSE"})
 
 
-RULES = [rule_ack, rule_copy, rule_eof, rule_thru, rule_seek, rule_offset, rule_cli, rule_shared_cursor, rule_close_surfaces]
+def rule_memory_modes(ctx):
+    from .c18 import rule_mode
+    ctx.rule("C01.MODE", "the in-memory backend positions a file as io.open does for each mode (append starts at the end whatever an earlier transfer left the shared cursor at, "
+                         "write truncates, r+b keeps): appended bytes never land in the middle of the file (shared with C18.MODE)")
+    ctx.borrow(rule_mode, {"C18.MODE": "C01.MODE"})
+
+
+RULES = [rule_ack, rule_copy, rule_eof, rule_thru, rule_seek, rule_offset, rule_cli, rule_shared_cursor, rule_close_surfaces, rule_memory_modes]
